@@ -74,7 +74,7 @@ CHECKS = {
          "real Lab triples through the harness-side replacement of the RGB->Lab lookup, is explored jointly with an independently transcribed Sharma-Wu-Dalal reference under "
          "shared UFs; on every feasible path of the hue-wrap / zero-chroma logic the results are equal, >= 0 and no exception can be raised (radicands, denominators). "
          "The reference is validated against the 34 published pairs on every run.",
-    note="formula equivalence by congruence over uninterpreted sqrt/atan2/sin/cos/exp/x^7; numeric magnitudes (e.g. zero only for identical colours) not decided; symmetry in the thorough tier",
+    note="formula equivalence by congruence over uninterpreted sqrt/atan2/sin/cos/exp/x^7; numeric magnitudes (e.g. zero only for identical colours) and symmetry in the arguments not decided",
     design="3 C11", technique=TECH, thorough=True),
  "C12": dict(
     text="The real make_readable_bulk runs symbolically on lists of symbolic entries (tuple/list/string colours, invalid entries, symbolic large/mode/very_readable) with "
